@@ -54,6 +54,95 @@ def _text(s):
     return "(" + "".join("{}%N :: ".format(ord(c)) for c in s) + "@nil N)"
 
 
+# ---- shape normalisation (behaviour-preserving rewrites are mapped to one form; anything else fails closed) ------
+def _conditional(file, fn, body):
+    """a body that is one two-way decision:
+         if T: A...            |   if T: A... else: B...      (A must end in return / raise for the first form)
+         B...
+       -> (T, A, B); a negated test `not T` is returned as (T, B, A)"""
+    if not body or not isinstance(body[0], ast.If):
+        raise TranslateError(file, fn, "expected a body that starts with an if")
+    i = body[0]
+    if i.orelse and len(body) == 1:
+        then, other = i.body, i.orelse
+    elif not i.orelse and len(body) > 1 and isinstance(i.body[-1], (ast.Return, ast.Raise)):
+        then, other = i.body, body[1:]
+    else:
+        raise TranslateError(file, i, "if without else must end in return/raise and be followed by the other branch")
+    test = i.test
+    if isinstance(test, ast.UnaryOp) and isinstance(test.op, ast.Not):
+        return test.operand, other, then
+    return test, then, other
+
+
+def _inline_locals(file, stmts):
+    """NAME = <pure expression> assignments followed by one return: the return expression with the locals substituted.
+    Pure = names, attributes of self, subscripts with constant index, tuples of such.  A local may be assigned once."""
+    import copy
+    env = {}
+
+    def pure(e):
+        if isinstance(e, (ast.Name, ast.Constant)):
+            return True
+        if isinstance(e, ast.Attribute):
+            return pure(e.value)
+        if isinstance(e, ast.Subscript):
+            return pure(e.value) and isinstance(e.slice, ast.Constant)
+        return False
+
+    class S(ast.NodeTransformer):
+        def visit_Name(self, n):
+            return copy.deepcopy(env[n.id]) if n.id in env and isinstance(n.ctx, ast.Load) else n
+    for st in stmts[:-1]:
+        if isinstance(st, ast.Assign) and len(st.targets) == 1 and isinstance(st.targets[0], ast.Name) and pure(st.value):
+            if st.targets[0].id in env:
+                raise TranslateError(file, st, "local assigned twice")
+            env[st.targets[0].id] = S().visit(copy.deepcopy(st.value))
+        elif isinstance(st, ast.Assign) and len(st.targets) == 1 and isinstance(st.targets[0], ast.Tuple) \
+                and all(isinstance(e, ast.Name) for e in st.targets[0].elts) and pure(st.value):
+            # a, b = X   ->   a := X[0], b := X[1]
+            val = S().visit(copy.deepcopy(st.value))
+            for k, e in enumerate(st.targets[0].elts):
+                if e.id in env:
+                    raise TranslateError(file, st, "local assigned twice")
+                env[e.id] = ast.Subscript(value=copy.deepcopy(val), slice=ast.Constant(value=k), ctx=ast.Load())
+        else:
+            raise TranslateError(file, st, "statement outside 'local = pure expression'")
+    last = stmts[-1]
+    if not isinstance(last, ast.Return) or last.value is None:
+        raise TranslateError(file, last, "expected a return")
+    return S().visit(copy.deepcopy(last.value))
+
+
+def _helper_call(cls, file, e):
+    """(helper FunctionDef, {param: argument}) when e is self.<private method of the class>(positional pure args)"""
+    if isinstance(e, ast.Call) and isinstance(e.func, ast.Attribute) and isinstance(e.func.value, ast.Name) \
+            and e.func.value.id == "self" and not e.keywords:
+        name = e.func.attr
+        cands = [n for n in cls.body if isinstance(n, ast.FunctionDef) and (n.name == name or "_" + cls.name + n.name == name)
+                 and not n.decorator_list]
+        if len(cands) != 1:
+            return None
+        fn = cands[0]
+        params = [a.arg for a in fn.args.args][1:]
+        if fn.args.vararg or fn.args.kwarg or fn.args.kwonlyargs or fn.args.defaults or len(params) != len(e.args):
+            raise TranslateError(file, e, "helper call arity")
+        return fn, dict(zip(params, e.args))
+    return None
+
+
+def _subst_params(file, stmts, mapping):
+    import copy
+
+    class S(ast.NodeTransformer):
+        def visit_Name(self, n):
+            return copy.deepcopy(mapping[n.id]) if n.id in mapping and isinstance(n.ctx, ast.Load) else n
+    stores = [n.id for b in stmts for n in ast.walk(b) if isinstance(n, ast.Name) and isinstance(n.ctx, ast.Store)]
+    if any(x in mapping for x in stores):
+        raise TranslateError(file, stmts[0], "helper assigns to its parameter")
+    return [S().visit(copy.deepcopy(b)) for b in stmts]
+
+
 # ---- keyword lists -----------------------------------------------------------------------
 def kw_lists(tree):
     want = ["PLOT_VALID_KWARGS", "ERRORBAR_VALID_KWARGS", "HIST_VALID_KWARGS", "NP_HIST_VALID_KWARGS"]
@@ -78,23 +167,20 @@ def mask_expr(tree):
     cls = _cls(tree, PO, "XYDataSetOnPlot")
     fn = _method(cls, PO, "__get_indices_from_xrange")
     body = _body(fn)
-    if len(body) != 2:
-        raise TranslateError(PO, fn, "mask: expected 'low, high = self._xrange; return ...'")
-    a, r = body
-    ok = (isinstance(a, ast.Assign) and len(a.targets) == 1 and isinstance(a.targets[0], ast.Tuple)
-          and [getattr(e, "id", None) for e in a.targets[0].elts] == ["low", "high"]
-          and _is_self_attr(a.value, "_xrange"))
-    if not ok:
-        raise TranslateError(PO, a, "mask: expected 'low, high = self._xrange'")
-    if not (isinstance(r, ast.Return) and isinstance(r.value, ast.BinOp) and isinstance(r.value.op, ast.BitAnd)):
-        raise TranslateError(PO, r, "mask: expected 'return CMP & CMP'")
+    if not body:
+        raise TranslateError(PO, fn, "mask: empty body")
+    # locals (low, high = self._xrange; x = self.dataset.xvalues; ...) are substituted into the returned expression
+    r = _inline_locals(PO, body)
+    if not (isinstance(r, ast.BinOp) and isinstance(r.op, ast.BitAnd)):
+        raise TranslateError(PO, body[-1], "mask: expected 'return CMP & CMP'")
 
     def operand(e):
-        if isinstance(e, ast.Name) and e.id in ("low", "high"):
-            return e.id
+        if isinstance(e, ast.Subscript) and _is_self_attr(e.value, "_xrange") and isinstance(e.slice, ast.Constant) \
+                and e.slice.value in (0, 1):
+            return ("low", "high")[e.slice.value]
         if isinstance(e, ast.Attribute) and e.attr == "xvalues" and _is_self_attr(e.value, "dataset"):
             return "x"
-        raise TranslateError(PO, e, "mask: operand outside {low, high, self.dataset.xvalues}")
+        raise TranslateError(PO, e, "mask: operand outside {self._xrange[0], self._xrange[1], self.dataset.xvalues}")
 
     def cmp(e):
         if not (isinstance(e, ast.Compare) and len(e.ops) == 1 and len(e.comparators) == 1):
@@ -110,25 +196,37 @@ def mask_expr(tree):
         if isinstance(op, ast.Gt):
             return "(Qltb {} {})".format(rr, l)
         raise TranslateError(PO, e, "mask: comparison operator outside < <= > >=")
-    return "andb {} {}".format(cmp(r.value.left), cmp(r.value.right))
+    return "andb {} {}".format(cmp(r.left), cmp(r.right))
 
 
 def mask_users(tree):
-    """xvalues / yvalues / xerr / yerr of XYDataSetOnPlot all read
-         if self._xrange: return self.dataset.<same name>[self.__get_indices_from_xrange()]
-         return self.dataset.<same name>"""
+    """xvalues / yvalues / xerr / yerr of XYDataSetOnPlot all decide on the truth of self._xrange between
+         self.dataset.<same name>[self.__get_indices_from_xrange()]   and   self.dataset.<same name>
+    written as early return, if/else or conditional expression, directly or through a private helper of the class that
+    gets the array as its argument (inlined by substituting the argument)"""
     cls = _cls(tree, PO, "XYDataSetOnPlot")
     out = []
     for name in ("xvalues", "yvalues", "xerr", "yerr"):
         fn = _method(cls, PO, name)
         body = _body(fn)
-        ok = len(body) == 2 and isinstance(body[0], ast.If) and _is_self_attr(body[0].test, "_xrange") \
-            and not body[0].orelse and len(body[0].body) == 1 and isinstance(body[0].body[0], ast.Return) \
-            and isinstance(body[1], ast.Return)
-        if not ok:
-            raise TranslateError(PO, fn, "{}: expected 'if self._xrange: return A[mask]; return A'".format(name))
-        sub = body[0].body[0].value
-        plain = body[1].value
+        depth = 0
+        while len(body) == 1 and isinstance(body[0], ast.Return) and _helper_call(cls, PO, body[0].value):
+            helper, mapping = _helper_call(cls, PO, body[0].value)
+            body = _subst_params(PO, _body(helper), mapping)
+            depth += 1
+            if depth > 4:
+                raise TranslateError(PO, fn, "{}: helper inlining too deep".format(name))
+        if len(body) == 1 and isinstance(body[0], ast.Return) and isinstance(body[0].value, ast.IfExp):
+            e = body[0].value
+            test, then, other = e.test, e.body, e.orelse
+            if isinstance(test, ast.UnaryOp) and isinstance(test.op, ast.Not):
+                test, then, other = test.operand, other, then
+        else:
+            test, tb, ob = _conditional(PO, fn, body)
+            then, other = _inline_locals(PO, tb), _inline_locals(PO, ob)
+        if not _is_self_attr(test, "_xrange"):
+            raise TranslateError(PO, fn, "{}: the decision is not on the truth of self._xrange".format(name))
+        sub, plain = then, other
 
         def arr(e):
             if isinstance(e, ast.Attribute) and _is_self_attr(e.value, "dataset"):
@@ -261,20 +359,27 @@ def domain(cls):
     fn = _method(cls, PL, "xrange")
     body = _body(fn)
     err = TranslateError(PL, fn, "Plot.xrange: unrecognised shape")
-    if not (len(body) == 2 and isinstance(body[0], ast.If) and isinstance(body[1], ast.Return)
-            and _is_self_attr(body[1].value, "_xrange")):
+    # decision on the truth of self._xrange (early return either way round, or if/else)
+    test, then, other = _conditional(PL, fn, body)
+    if not _is_self_attr(test, "_xrange"):
         raise err
-    i = body[0]
-    if not (isinstance(i.test, ast.UnaryOp) and isinstance(i.test.op, ast.Not) and _is_self_attr(i.test.operand, "_xrange")
-            and not i.orelse and len(i.body) == 4):
+    if not (len(then) == 1 and isinstance(then[0], ast.Return) and _is_self_attr(then[0].value, "_xrange")):
+        raise TranslateError(PL, then[0], "Plot.xrange: a range that was set is not returned as it is")
+    if len(other) != 4:
         raise err
-    objs, lo, hi, ret = i.body
-    # objs = list(obj for obj in self._objects if isinstance(obj, ObjectWithRange))
+    objs, lo, hi, ret = other
+    # objs = list(obj for obj in self._objects if isinstance(obj, ObjectWithRange))   (or the list comprehension)
     try:
-        g = objs.value.args[0]
+        v = objs.value
+        g = v if isinstance(v, ast.ListComp) else v.args[0]
+        if not isinstance(v, ast.ListComp):
+            assert isinstance(v, ast.Call) and v.func.id == "list" and len(v.args) == 1 and not v.keywords
+            assert isinstance(g, ast.GeneratorExp)
         t = g.generators[0].ifs[0]
-        assert objs.value.func.id == "list" and _is_self_attr(g.generators[0].iter, "_objects")
-        assert t.func.id == "isinstance" and t.args[1].id == "ObjectWithRange" and len(g.generators[0].ifs) == 1
+        assert len(g.generators) == 1 and _is_self_attr(g.generators[0].iter, "_objects")
+        assert isinstance(g.elt, ast.Name) and g.elt.id == g.generators[0].target.id
+        assert t.func.id == "isinstance" and t.args[0].id == g.elt.id and t.args[1].id == "ObjectWithRange" \
+            and len(g.generators[0].ifs) == 1
         objs_name = objs.targets[0].id
     except (AttributeError, IndexError, AssertionError):
         raise TranslateError(PL, objs, "Plot.xrange: candidates are not the ObjectWithRange instances")
@@ -286,6 +391,7 @@ def domain(cls):
             g = c.args[0]
             assert agg in ("min", "max") and len(c.args) == 1 and not c.keywords
             gen = g.generators[0]
+            assert isinstance(g, (ast.GeneratorExp, ast.ListComp)) and len(g.generators) == 1
             assert gen.iter.id == objs_name and len(gen.ifs) == 1
             v = gen.target.id
             f = gen.ifs[0]
@@ -299,6 +405,8 @@ def domain(cls):
             raise TranslateError(PL, st, "Plot.xrange: bound is not min/max(obj.xrange[k] for obj in objs if obj.xrange)")
     n_lo, agg_lo, k_lo = bound(lo)
     n_hi, agg_hi, k_hi = bound(hi)
+    if len({n_lo, n_hi, objs_name}) != 3:
+        raise TranslateError(PL, hi, "Plot.xrange: the two bounds and the candidate list must be three different locals")
     if not (isinstance(ret, ast.Return) and isinstance(ret.value, ast.Tuple) and
             [getattr(e, "id", None) for e in ret.value.elts] == [n_lo, n_hi]):
         raise TranslateError(PL, ret, "Plot.xrange: does not return (low_bound, high_bound)")
